@@ -447,7 +447,8 @@ def typed_dict_signature(obj: tp.Callable) -> inspect.Signature:
     """
     # (Not exhaustive: the signature fallback of the hints is this very function.)
     hints = cached_type_hints(obj, exhaustive=False)
-    total = getattr(obj, "__total__", True)
+    # (`Page[int]` forwards no dunder attribute of `Page`.)
+    total = getattr(tp.get_origin(obj) or obj, "__total__", True)
     default = inspect.Parameter.empty if total else ...
     return inspect.Signature(
         parameters=tuple(
@@ -455,7 +456,8 @@ def typed_dict_signature(obj: tp.Callable) -> inspect.Signature:
                 name=x,
                 kind=inspect.Parameter.KEYWORD_ONLY,
                 annotation=y,
-                default=getattr(obj, x, default),
+                # (A key has no default of its own: an attribute of that name is a method of `dict`.)
+                default=default,
             )
             for x, y in hints.items()
         )
@@ -1086,6 +1088,8 @@ def required_keys(obj: tp.Any) -> frozenset[str]:
         >>> sorted(required_keys(FooMap))
         ['bar']
     """
+    # (`Page[int]` for a generic `Page` forwards no dunder attribute, and is no class to take hints of.)
+    obj = tp.get_origin(obj) or obj
     keys = set(getattr(obj, "__required_keys__", ()))
     if not istypeddict(obj):
         return frozenset(keys)
